@@ -112,7 +112,7 @@ func runSentence(c GCase, o sentenceOpts) *sentenceResult {
 	gd := gram.NewGuard(env.Base)
 	gd.MaxEvents, gd.MaxCalls = 100000, 150000
 	res.Guard = gd
-	h := &gram.Hooks{Inside: gd.Inside, Outside: gd.Outside, NoMemo: o.NoMemo, Interp: concatInterp(), ShareLeaves: true,
+	h := &gram.Hooks{Budget: gd.LeafTick, Inside: gd.Inside, Outside: gd.Outside, NoMemo: o.NoMemo, Interp: concatInterp(), ShareLeaves: true,
 		// grammars with trimming wrappers (judged on acceptance and errors, not on the tree's node types): a quarter with
 		// hand-written terminals that return a node type of the user's own
 		UserLeaves: c.G.HasExtendedOps() && run.Hash(c.G.String())%4 == 2}
